@@ -186,6 +186,13 @@ pub fn exec_fd(case: &FdCase, tally: &mut Tally, prop: &str) -> Result<(), Failu
                         if let Err(p) = guard(|| twin.verif_process_message(digest_msg(v, back % 2 == 1))) {
                             return vio(&format!("{prop}/{}", p.signature()), p.describe());
                         }
+                        if prop == "C10" {
+                            // Completeness must hold whatever stale values relays keep sending:
+                            // here the observed node receives them too.
+                            if let Err(p) = guard(|| main.verif_process_message(digest_msg(v, back % 2 == 1))) {
+                                return vio(&format!("{prop}/{}", p.signature()), p.describe());
+                            }
+                        }
                         stale_since_eval = true;
                         tally.label("stale_digest");
                     }
@@ -295,6 +302,10 @@ pub struct AccCase {
     pub margin_ppb: u32,
     /// per arrival: (gap position in [a,b], evaluation position within the following gap or none)
     pub arrivals: Vec<(u16, Option<u16>)>,
+    /// Indices of arrivals preceded by an outage: a silence longer than the death deadline, during
+    /// which an evaluation declares the member dead; the steady schedule then resumes.
+    #[serde(default)]
+    pub outages: Vec<u16>,
 }
 
 pub fn exec_accuracy(case: &AccCase, tally: &mut Tally) -> Result<(), Failure> {
@@ -316,7 +327,28 @@ pub fn exec_accuracy(case: &AccCase, tally: &mut Tally) -> Result<(), Failure> {
         let mut observations = 0usize;
         let mut checked = 0u32;
         let gap_of = |pos: u16| -> u64 { a + (((b - a) as u128 * pos as u128) / 65_535) as u64 };
+        let outage_at: std::collections::HashSet<usize> = if case.arrivals.len() > 2 { case.outages.iter().map(|o| 1 + (*o as usize % (case.arrivals.len() - 1))).collect() } else { Default::default() };
+        let mut outages_done = 0u32;
         for (i, (pos, eval)) in case.arrivals.iter().enumerate() {
+            if outage_at.contains(&i) {
+                // Silence beyond the deadline (and beyond max_interval), with an evaluation inside.
+                let silence = (cfg.deadline_ns() * 1.5) as u64 + cfg.max_interval_ns + 1_000;
+                advance_ns(silence).await;
+                if let Err(p) = guard(|| node.verif_update_nodes_liveness()) {
+                    return vio(&format!("C11/{}", p.signature()), p.describe());
+                }
+                if classify(&node, &xid).0 && observations >= 1 {
+                    // (completeness is C10's business; here it only matters that the outage is over)
+                }
+                advance_ns(1_000).await;
+                hb += 1;
+                if let Err(p) = guard(|| node.verif_process_message(digest_msg(hb, false))) {
+                    return vio(&format!("C11/{}", p.signature()), p.describe());
+                }
+                observations = 1;
+                outages_done += 1;
+                continue;
+            }
             let gap = if i == 0 { 0 } else { gap_of(*pos) };
             // evaluation placed inside the gap that precedes this arrival (after the previous one)
             let mut spent = 0u64;
@@ -350,6 +382,9 @@ pub fn exec_accuracy(case: &AccCase, tally: &mut Tally) -> Result<(), Failure> {
         }
         if observations > case.window + 2 {
             tally.label("window_wrapped");
+        }
+        if outages_done > 0 {
+            tally.label("steady_after_outage");
         }
         Ok(())
     })
@@ -412,13 +447,14 @@ pub fn acc_strategy(max_arrivals: usize) -> impl Strategy<Value = AccCase> {
         1u16..=65_535,
         prop_oneof![2 => 0u32..1_000, 2 => 0u32..50_000_000, 1 => 50_000_000u32..1_000_000_000],
         proptest::collection::vec((any::<u16>(), proptest::option::weighted(0.7, any::<u16>())), 4..=max_arrivals),
+        prop_oneof![1 => Just(vec![]), 1 => proptest::collection::vec(any::<u16>(), 1..3)],
     )
-        .prop_map(|(window, max_interval_ns, initial_interval_ns, a_frac, b_frac, margin_ppb, arrivals)| AccCase { window, max_interval_ns, initial_interval_ns, a_frac, b_frac, margin_ppb, arrivals })
+        .prop_map(|(window, max_interval_ns, initial_interval_ns, a_frac, b_frac, margin_ppb, arrivals, outages)| AccCase { window, max_interval_ns, initial_interval_ns, a_frac, b_frac, margin_ppb, arrivals, outages })
 }
 
 pub fn run_c10(ctx: &Ctx, report: &mut Report) {
     let max_events = ctx.tier.pick(300, 2000);
-    report.push(run_proptest(ctx, "arrival-histories", ctx.cases(150_000, 3_000_000), 800, || case_strategy(max_events, false), |c, t| exec_fd(c, t, "C10")));
+    report.push(run_proptest(ctx, "arrival-histories", ctx.cases(150_000, 3_000_000), 800, || case_strategy(max_events, true), |c, t| exec_fd(c, t, "C10")));
 }
 
 pub fn run_c11(ctx: &Ctx, report: &mut Report) {
